@@ -172,7 +172,7 @@ pub fn create_array_constructor(interp: &mut Interpreter) -> JsObjectRef {
     interp
         .array_prototype
         .borrow_mut()
-        .set_property(constructor_key, JsValue::Object(constructor.clone()));
+        .define_builtin_property(constructor_key, JsValue::Object(constructor.clone()));
 
     // Add Symbol.species getter
     interp.register_species_getter(&constructor);
